@@ -42,8 +42,8 @@ MkRoute(pi, p, c) ==
       lp   |-> IF c = 4 THEN 200 ELSE -1,
       med  |-> IF c = 5 THEN 50 ELSE -1,
       loop |-> c = 2,
-      via  |-> IF c = 3 THEN ViaOf(pi, p) ELSE 0, pp |-> 0]
+      via  |-> IF c = 3 THEN ViaOf(pi, p) ELSE 0, pp |-> 0, cm |-> 0]
 
 MkLocal(c) == [src |-> "local", v |-> 1 + c, len |-> 0, lp |-> -1, med |-> IF c = 1 THEN 50 ELSE -1,
-               loop |-> FALSE, via |-> 0, pp |-> 0]
+               loop |-> FALSE, via |-> 0, pp |-> 0, cm |-> 0]
 =============================================================================
